@@ -249,3 +249,24 @@ def c03_9(ctx, r):
     from .c08 import c08_5
 
     c08_5(ctx, r)
+
+
+@rule(P, "C03.10", "T8+T3", "batch identifiers are fresh across rounds (a pending batch's files are never overwritten by a later batch)", min_obligations=6)
+def c03_10(ctx, r):
+    from .c01 import c01_6
+
+    c01_6(ctx, r)
+
+
+@rule(P, "C03.11", "T3", "the node's cancel branch re-arms its fixpoint loop (a canceled entry is processed, not left outstanding)", min_obligations=2)
+def c03_11(ctx, r):
+    from .c04 import c04_3
+
+    c04_3(ctx, r)
+
+
+@rule(P, "C03.12", "T9", "the node parses its batch number from the config file name the submitter writes, for every number", min_obligations=5)
+def c03_12(ctx, r):
+    from .c07 import c07_8
+
+    c07_8(ctx, r)
